@@ -7,6 +7,7 @@ import (
 	"fmt"
 	"os"
 	"strings"
+	"time"
 
 	"github.com/ipfs/boxo/verifshim/eng"
 	"github.com/ipfs/boxo/verifshim/vexp"
@@ -43,6 +44,14 @@ func main() {
 			var ops []string
 			if len(parts) > 1 && parts[1] != "" {
 				ops = strings.Split(parts[1], " ")
+			}
+			if os.Getenv("VERIF_C36_BENCH") != "" {
+				cfg, _ := parseConfig(parts[0])
+				t0 := time.Now()
+				for i := 0; i < 200; i++ {
+					runSeq(cfg, ops, false)
+				}
+				fmt.Printf("200 runs in %v\n", time.Since(t0))
 			}
 			replaySeq(r, seqReplay{"seq", parts[0], ops})
 			r.Incomplete("single script (debug)")
